@@ -489,6 +489,7 @@ pub fn run_listvar(ctx: &mut Ctx) {
         curs = next;
     }
     let mut seen = std::collections::HashSet::new();
+    let mut pow2_sweeps = 0usize;
     for b in inputs {
         if !seen.insert(b.clone()) {
             continue;
@@ -527,6 +528,13 @@ pub fn run_listvar(ctx: &mut Ctx) {
         let mut limits: Vec<usize> = vec![0, 1, 2, 3, 1 << 30, 1 << 62, (1 << 62) + 1, 1 << 63, 3 << 62, usize::MAX / 4 + 1, usize::MAX - 1, usize::MAX];
         if let Some(c) = count {
             limits.extend([c.saturating_sub(1), c, c + 1]);
+            // every power of two and its neighbours, for the first accepted inputs
+            if c > 0 && pow2_sweeps < 12 {
+                pow2_sweeps += 1;
+                for k in 0..64 {
+                    limits.extend([(1usize << k) - 1, 1usize << k, (1usize << k) + 1, (1usize << k).wrapping_mul(3)]);
+                }
+            }
         }
         limits.sort();
         limits.dedup();
@@ -587,6 +595,7 @@ pub fn run_builder_big(ctx: &mut Ctx) {
             ctx.out.r("C09", "builder", matches!(&r, Ok(Ok(got)) if *got == items), &["long_layout_accepted_and_items_in_order", "builder-big", &tag]);
             ctx.out.r("C05", "builder", r.is_ok(), &["long_sequence_no_panic", "builder-big", &tag]);
             ctx.out.r("C01", "builder", matches!(&r, Ok(Ok(got)) if *got == items), &["long_layout_roundtrip", "builder-big", &tag]);
+            ctx.out.r("C04", "builder", matches!(&r, Ok(Ok(got)) if *got == items), &["long_layout_accepted_and_items_in_order", "builder-big", &tag]);
             if n > 10000 {
                 continue;
             }
